@@ -11,9 +11,12 @@
 (*   "rat"     1 component (naturals)      "ff"   1 component mod P        *)
 (*   "complex" <<re, im>>                  "eu"   <<probability, utility>> *)
 (*   "poly"    PD+1 coefficients, products truncated at X^PD               *)
+(*   "polyhi"  all 32 coefficient slots of the shipped polynomial type:    *)
+(*             products truncated at X^31 (used with high-degree weights   *)
+(*             whose counts reach the last slot)                           *)
 (* For "bool", "rat" and "ff" the exponent is always 0.                    *)
 (***************************************************************************)
-EXTENDS Naturals, Integers, Sequences, FiniteSets, FiniteSetsExt
+EXTENDS Naturals, Integers, Sequences, FiniteSets, FiniteSetsExt, TLC
 
 CONSTANT PD                                  \* highest polynomial degree kept
 
@@ -23,6 +26,7 @@ Pow8(d) == 8 ^ d
 NComp(sr) == CASE sr \in {"real", "bool", "ff", "rat"} -> 1
                [] sr \in {"complex", "eu"} -> 2
                [] sr = "poly" -> PD + 1
+               [] sr = "polyhi" -> 32                       \* the full capacity of the shipped type (MAX_COEFFS)
 
 Val(c, e) == [c |-> c, e |-> e]
 Zero(sr) == Val([i \in 1 .. NComp(sr) |-> 0], 0)
@@ -43,6 +47,7 @@ MulC(sr, p, a, b) ==
     [] sr = "complex" -> <<a[1] * b[1] - a[2] * b[2], a[1] * b[2] + a[2] * b[1]>>
     [] sr = "eu" -> <<a[1] * b[1], a[1] * b[2] + a[2] * b[1]>>
     [] sr = "poly" -> [k \in 1 .. PD + 1 |-> ConvSum(a, b, k, 1)]
+    [] sr = "polyhi" -> [k \in 1 .. 32 |-> ConvSum(a, b, k, 1)]        \* terms past X^31 are dropped, as documented
 
 AddC(sr, p, a, b) ==
   CASE sr = "bool" -> <<IF a[1] + b[1] > 0 THEN 1 ELSE 0>>
@@ -53,9 +58,11 @@ SubC(sr, p, a, b) ==
   CASE sr = "ff" -> <<(a[1] - b[1]) % p>>
     [] OTHER -> [i \in DOMAIN a |-> a[i] - b[i]]
 
-Mul(sr, p, x, y) == Val(MulC(sr, p, x.c, y.c), x.e + y.e)
-Add(sr, p, x, y) == LET m == Max2(x.e, y.e) IN Val(AddC(sr, p, AtExp(x, m).c, AtExp(y, m).c), m)
-Sub(sr, p, x, y) == LET m == Max2(x.e, y.e) IN Val(SubC(sr, p, AtExp(x, m).c, AtExp(y, m).c), m)
+(* TLCEval forces the operands once: TLC passes operator arguments lazily and, inside recursive definitions, re-evaluates *)
+(* them on every use - without it a 32-coefficient product re-computes its recursive operand once per coefficient access *)
+Mul(sr, p, x, y) == LET xx == TLCEval(x)  yy == TLCEval(y) IN Val(TLCEval(MulC(sr, p, xx.c, yy.c)), xx.e + yy.e)
+Add(sr, p, x, y) == LET xx == TLCEval(x)  yy == TLCEval(y)  m == Max2(xx.e, yy.e) IN Val(TLCEval(AddC(sr, p, AtExp(xx, m).c, AtExp(yy, m).c)), m)
+Sub(sr, p, x, y) == LET xx == TLCEval(x)  yy == TLCEval(y)  m == Max2(xx.e, yy.e) IN Val(TLCEval(SubC(sr, p, AtExp(xx, m).c, AtExp(yy, m).c)), m)
 
 (* order, join, meet, choose as declared by the code for "real" and "eu" *)
 Leq(sr, x, y) == LET m == Max2(x.e, y.e)  a == AtExp(x, m).c  b == AtExp(y, m).c IN
